@@ -14,7 +14,8 @@ before `Commit` (`stepTr .trDiscard`: nothing is on the storage) or after a fail
   what it delivers are whole issued groups — for every issued group, the transaction's included, all of its
   entries or none as a group — and every group acknowledged with `Sync`, hence every committed transaction
   (`tr_commit_acknowledged`), is among them.  `tr_commit_crash_atomic_faults`: the same under the storage faults of
-  `C08.fault_safe_writer`.
+  `C08.fault_safe_writer` (every good configuration); `tr_commit_crash_atomic_any_fault`: under every storage fault
+  (the repaired configuration).
 * **(b) `tr_discard_no_residue`**: no crash image taken while the transaction is open and its commit record has
   not been written — from `OpenTransaction` through every `Put`, through the table phase of `Commit`, up to the
   append — delivers a group that reaches into the transaction's sequence numbers (`tr_invisible_before_commit`);
@@ -30,9 +31,11 @@ before `Commit` (`stepTr .trDiscard`: nothing is on the storage) or after a fail
   transaction as a whole (`adopted_after_reopen`); otherwise the next successful commit writes a new manifest from
   the session's version, which does not name the table: the file is an orphan, and the janitor of the next `Open`
   removes it — that *is* in the model (`stepJob` at `.install` of the final commit of a recovery:
-  `checkAndCleanFiles` removes every table the new version does not need; `orphan_removed_by_next_open`).  A general
-  theorem for these two cases needs the invariant for runs with manifest faults that take effect, i.e.
-  `C08.fault_safe_full` (not proved yet).
+  `checkAndCleanFiles` removes every table the new version does not need; `orphan_removed_by_next_open`).  The general
+  theorem for both cases is `tr_commit_crash_atomic_any_fault` (from `C08.fault_safe`, the repaired configuration, every
+  storage fault): whatever fails, a crash image holds the discarded transaction as a whole or not at all, and every
+  acknowledged commit.  In the invariant the discarded transaction whose record is in the manifest is
+  `Dur.OrphanOK`: one synced table with one group, reported as failed, its sequence numbers consumed.
 -/
 namespace GoLevel.C11Dur
 open GoLevel GoLevel.Dur
@@ -77,6 +80,22 @@ theorem tr_commit_crash_atomic_faults {cfg : Cfg} (hg : cfg.Good) (hcs : cfg.con
       (∀ e ∈ r.entries, ∃ g ∈ issuedGrps s, g ∈ r.grps ∧ e ∈ g.ents ∧ ∀ e' ∈ g.ents, e' ∈ r.entries) ∧
       (∀ g ∈ C04.ackedSync s, ∀ e ∈ g.ents, e ∈ r.entries) := by
   obtain ⟨r, hrec, sel, hsel⟩ := C08.fault_safe_writer hg hcs hal hr hi hl hw
+  exact ⟨r, hrec, atomic_of_consistent hsel⟩
+
+/-- … and, for the repaired code, under **every** storage fault (`C08.fault_safe_running`): also when the append of the
+    transaction's record, the manifest `Sync` or `SetMeta` reported an error with the record in the manifest and the
+    client discarded the transaction — a crash image then holds the transaction as a whole (its table, adopted by the
+    next `Open`) or not at all, never a part of it, and every acknowledged commit is there -/
+theorem tr_commit_crash_atomic_any_fault {cfg : Cfg} (hg : cfg.Good) (hcs : cfg.consumeSeqOnJournalError = true)
+    (h10 : cfg.discardKeepsTablesWhenUncertain = true)
+    (h26a : cfg.cleanupChecksCurrent = true) (h26b : cfg.cleanupKeepsWhenGetMetaFails = true)
+    {as : List Act} {s : St} {d : Disk} (hr : run cfg init as = some (s, d))
+    {d' : Disk} (hi : IsCrashImage d d') {c : UCmp} (hl : LawfulUCmp c) (hw : ∀ g ∈ issuedGrps s, g.wf) :
+    ∃ r, recoverR cfg d' = .ok r ∧
+      (∀ g ∈ issuedGrps s, (g ∈ r.grps ∧ ∀ e ∈ g.ents, e ∈ r.entries) ∨ g ∉ r.grps) ∧
+      (∀ e ∈ r.entries, ∃ g ∈ issuedGrps s, g ∈ r.grps ∧ e ∈ g.ents ∧ ∀ e' ∈ g.ents, e' ∈ r.entries) ∧
+      (∀ g ∈ C04.ackedSync s, ∀ e ∈ g.ents, e ∈ r.entries) := by
+  obtain ⟨r, hrec, sel, hsel⟩ := C08.fault_safe_running hg hcs h10 h26a h26b hr hi hl hw
   exact ⟨r, hrec, atomic_of_consistent hsel⟩
 
 /-- the last step of `Commit` (`db.setSeq(tr.seq)`, the call returns `nil`) makes the transaction a group
@@ -354,6 +373,7 @@ example : (List.range (trDiscarded.length + 1)).all (fun n =>
 /-- The property theorems of this file (for the audit). -/
 def theorems : List String :=
   ["GoLevel.C11Dur.tr_commit_crash_atomic", "GoLevel.C11Dur.tr_commit_crash_atomic_faults",
+   "GoLevel.C11Dur.tr_commit_crash_atomic_any_fault",
    "GoLevel.C11Dur.tr_commit_acknowledged", "GoLevel.C11Dur.tr_invisible_before_commit",
    "GoLevel.C11Dur.discard_removes_tables", "GoLevel.C11Dur.discard_tables_never_live",
    "GoLevel.C11Dur.tr_discard_no_residue", "GoLevel.C11Dur.discard_keeps_tables_when_uncertain",
